@@ -12,7 +12,7 @@ BOUNDS = ("all real bounds/values/test points (REAL mode) and all IEEE doubles e
           "auto-correcting parameter: |x|<=1e3, bounds in [-1e3,1e3], width>=1e-9, exact real arithmetic")
 OUTSIDE = ["bracket-syntax parser (decided in C16/C17 engine-K jobs, not here)", "histories longer than 3 calls after construction", "non-zero parameter precision",
            "rounding of lowerBound+1e-12 in the auto-correcting parameter (REAL mode is exact arithmetic)"]
-ASSUMPTIONS = ["z3 4.8.12 is sound for QF_NRA/QF_FP queries", "clang -O1 IR is the semantics of the code (no fast-math; FP contraction off)",
+ASSUMPTIONS = ["z3 5.1.0 is sound for QF_NRA/QF_FP queries", "clang -O1 IR is the semantics of the code (no fast-math; FP contraction off)",
                "REAL mode: IEEE rounding is outside the claim", "message handler of AutoParameter set to null (output formatting is not the subject)"]
 
 JOBS = [
@@ -27,6 +27,6 @@ JOBS = [
 LEVEL_TEXT = ("Bounded symbolic checking: for every discrete configuration listed in the evidence, every feasible path of the compiled bpp-core code is explored with "
               "bounds/values as solver variables and every assertion is discharged by z3 for all reals (and, for the membership/construct kernels, all non-NaN IEEE doubles). "
               "Inductive single steps from an arbitrary valid state cover histories of any length for the mutators; chained histories are bounded to 3 calls.")
-LEVEL_NOTE = ("Trusted: clang-14 IR as semantics, the SymFP pass + runtime (validated by running the repo's own tests through the instrumented library), z3 4.8.12. "
+LEVEL_NOTE = ("Trusted: clang-14 IR as semantics, the SymFP pass + runtime (validated by running the repo's own tests through the instrumented library), z3 5.1.0. "
               "REAL mode excludes IEEE rounding; parser part of the statement is checked under C16/C17 kernels only.")
 TECHNIQUE = "symbolic execution of LLVM-IR-instrumented real code, path conditions and assertions decided by z3 (QF_NRA / QF_FP)"
